@@ -650,7 +650,7 @@ class _GenerateRenderMethod:
                 node,
                 node.funcname,
                 namedecls,
-                False,
+                buffered,
                 identifiers,
                 inline=True,
                 toplevel=False,
